@@ -25,6 +25,7 @@ import tokenize
 from typing import Any, Dict, List
 
 from .. import core_check, frontend as fe, gen, report, tla
+from ..core_check import budget_map
 from ..rt import REPO_SRC
 from . import c18
 from .core import NPROC
@@ -434,7 +435,7 @@ def run(prop: str, tier: str, seed: int) -> int:
         import concurrent.futures as cf
 
         with cf.ProcessPoolExecutor(max_workers=NPROC) as ex:
-            results = list(ex.map(unit, units))
+            results = budget_map(ex, unit, units)
     else:
         results = [unit(u) for u in units]
     cov: Dict[str, Any] = {"invocations": 0, "written": 0, "refused": 0, "by_template": {}, "oracle_from_spec": 0, "oracle_from_library": 0,
